@@ -59,7 +59,8 @@ def cases(tier, seed):
                         args = "copied"  # the blocklist travels in model_parameters
                     # config and preprocessed data handed over by the caller, or fetched from storage by the client
                     inputs = "storage" if (k + e) % 4 == 1 else "passed"
-                    out.append(dict(seed=seed, i=e, env=env, estimator=est, gate=gate, args=args, inputs=inputs))
+                    out.append(dict(seed=seed, i=e, env=env, estimator=est, gate=gate, args=args, inputs=inputs,
+                                    same_client=bool((k + e) % 3 == 1)))
                     k += 1
     # the same specification through the command line entry point (elexmodel.cli driven in-process by click's test
     # runner): no --save_output option at all is "no options", each --save_output value names one thing to persist
@@ -360,7 +361,7 @@ def child(spec):
     # every third child: ONE client answers all polls of the child (same election, same feed, only what is to be
     # persisted changes from poll to poll), as a long-running service does; what a poll persists must not depend on
     # what the client did before
-    one_client = cm.ModelClient() if spec["i"] % 3 == 1 and spec.get("inputs") != "cli" else None
+    one_client = cm.ModelClient() if spec.get("same_client") and spec.get("inputs") != "cli" else None
     with harness.patched() as p:
         if est == "gaussian":
             harness.fast_boot_sigma(p, 100)
